@@ -74,12 +74,14 @@ def c08 (base : List Handler) (fn : String) (r : Req) : Option (String × String
   if fn ≠ "C08ins" then none else
   let f := r.str "f"
   let xs := splitList (r.str "xs")
-  let ys := splitList (r.str "ys")
-  let two := (r.get "ys").isSome
+  -- the second series of a pair: `ys`, or the mask `ms` of a masked aggregation
+  let k2 := if (r.get "ms").isSome then "ms" else "ys"
+  let ys := splitList (r.str k2)
+  let two := (r.get k2).isSome
   let mask := (r.str "ins").toList
   let mk (x y : List String) : Req :=
     let q := setKey r "xs" (joinToks x)
-    if two then setKey q "ys" (joinToks y) else q
+    if two then setKey q k2 (joinToks y) else q
   -- position-wise results (vrank): only the entries of the valid elements are compared
   let dropNulls (t : String) : String :=
     if f = "vrank" then joinToks ((splitList t).filter (· ≠ "_")) else t
